@@ -44,6 +44,10 @@ pub struct Scn {
     /// poll); the simulated tasks then run with a budget like real tokio tasks
     #[serde(default)]
     pub busy: Vec<u32>,
+    /// a timeout source of the *other* kind is set first and then replaced (the last setter
+    /// wins): 0 none, 1 a short one (3 ms), 2 a long one (300 ms)
+    #[serde(default)]
+    pub decoy: u8,
 }
 
 pub fn gen(rng: &mut Rng) -> Scn {
@@ -59,7 +63,11 @@ pub fn gen(rng: &mut Rng) -> Scn {
         let out = if r < 55 {
             Outcome::Ok
         } else if r < 85 {
-            Outcome::Err(rng.below(2) as u8)
+            if rng.chance(1, 6) {
+                Outcome::Err(INNER_ELAPSED_KIND)
+            } else {
+                Outcome::Err(rng.below(2) as u8)
+            }
         } else {
             Outcome::Never
         };
@@ -84,6 +92,7 @@ pub fn gen(rng: &mut Rng) -> Scn {
         fixed_frac_us: if rng.chance(1, 5) { *rng.pick(&[1u32, 400, 500, 900, 999]) } else { 0 },
         built_elsewhere: rng.chance(1, 8),
         busy: if rng.chance(1, 6) { vec![rng.below(n as u64) as u32] } else { vec![] },
+        decoy: *rng.pick(&[0u8, 0, 0, 1, 1, 2]),
         knobs: SchedKnobs::gen(rng, true, 80),
     }
 }
@@ -99,19 +108,54 @@ pub fn valid(s: &Scn) -> bool {
         && s.calls.iter().all(|c| c.frac_us <= 999)
         // one busy call at most: two would delay each other (each busy poll takes a virtual ms)
         && s.busy.len() <= 1
+        && s.decoy <= 2
 }
 
-fn map_out(r: Result<crate::inner::Resp, TimeLimiterError<SimErr>>) -> Out {
+/// The wrapped service's error type is a boxed error: its own error, or (scripted kind 9) a
+/// `tokio::time::error::Elapsed` of its own making (a service that guards its I/O with
+/// `tokio::time::timeout` and uses `?`). That is an *inner* error like any other.
+type BErr = Box<dyn std::error::Error + Send + Sync>;
+pub const INNER_ELAPSED_KIND: u8 = 9;
+
+fn own_elapsed() -> Option<tokio::time::error::Elapsed> {
+    let mut f = Box::pin(tokio::time::timeout(Duration::ZERO, std::future::pending::<()>()));
+    let wk = std::task::Waker::noop();
+    match std::future::Future::poll(f.as_mut(), &mut std::task::Context::from_waker(wk)) {
+        std::task::Poll::Ready(Err(e)) => Some(e),
+        _ => None,
+    }
+}
+
+fn to_box(e: SimErr) -> BErr {
+    if e.kind == INNER_ELAPSED_KIND {
+        if let Some(el) = own_elapsed() {
+            world::fault("inner_error_is_tokio_elapsed");
+            return Box::new(el);
+        }
+    }
+    Box::new(e)
+}
+
+fn map_out(r: Result<crate::inner::Resp, TimeLimiterError<BErr>>) -> Out {
     match r {
         Ok(x) => Out::ok(x),
         Err(TimeLimiterError::Timeout) => Out::err("Timeout", None),
-        Err(TimeLimiterError::Inner(e)) => Out::err("Inner", Some(e)),
+        Err(TimeLimiterError::Inner(e)) => match e.downcast::<SimErr>() {
+            Ok(s) => Out::err("Inner", Some(*s)),
+            Err(other) => {
+                if other.is::<tokio::time::error::Elapsed>() {
+                    Out::err("InnerElapsed", None)
+                } else {
+                    Out::err("InnerUnknown", None)
+                }
+            }
+        },
     }
 }
 
 fn task<S>(svc: S, req: Req) -> Box<dyn FnOnce() -> LocalFut>
 where
-    S: Service<Req, Response = crate::inner::Resp, Error = TimeLimiterError<SimErr>> + 'static,
+    S: Service<Req, Response = crate::inner::Resp, Error = TimeLimiterError<BErr>> + 'static,
     S::Future: 'static,
 {
     Box::new(move || {
@@ -174,7 +218,7 @@ pub fn run(s: &Scn, ctx: &mut RunCtx) -> RunOutput {
                         });
                 }
                 let layer = b.build();
-                let base = if scn.built_elsewhere { built_in_foreign_runtime(|| layer.layer(SimInner::new(0))) } else { layer.layer(SimInner::new(0)) };
+                let base = if scn.built_elsewhere { built_in_foreign_runtime(|| layer.layer(SimInner::new(0).map_err(to_box as fn(SimErr) -> BErr))) } else { layer.layer(SimInner::new(0).map_err(to_box as fn(SimErr) -> BErr)) };
                 for (i, c) in scn.calls.iter().enumerate() {
                     defs.push(TaskDef {
                         start_ms: c.start_ms,
@@ -188,19 +232,23 @@ pub fn run(s: &Scn, ctx: &mut RunCtx) -> RunOutput {
         match scn.fixed_timeout {
             Some(t) => {
                 let d = if t == u64::MAX { Duration::MAX } else { Duration::from_micros(t * 1000 + scn.fixed_frac_us as u64) };
-                if scn.flag_first {
-                    finish_builder!(TimeLimiterLayer::builder().cancel_running_future(cancel).timeout_duration(d))
-                } else {
-                    finish_builder!(TimeLimiterLayer::builder().timeout_duration(d).cancel_running_future(cancel))
+                let dd = Duration::from_millis(if scn.decoy == 1 { 3 } else { 300 });
+                match (scn.flag_first, scn.decoy > 0) {
+                    (true, false) => finish_builder!(TimeLimiterLayer::builder().cancel_running_future(cancel).timeout_duration(d)),
+                    (false, false) => finish_builder!(TimeLimiterLayer::builder().timeout_duration(d).cancel_running_future(cancel)),
+                    (true, true) => finish_builder!(TimeLimiterLayer::builder().cancel_running_future(cancel).timeout_fn(move |_: &Req| dd).timeout_duration(d)),
+                    (false, true) => finish_builder!(TimeLimiterLayer::builder().timeout_fn(move |_: &Req| dd).timeout_duration(d).cancel_running_future(cancel)),
                 }
             }
             None => {
                 let tv = touts2.clone();
                 let f = move |r: &Req| if tv[r.id as usize] == u64::MAX { Duration::MAX } else { Duration::from_micros(tv[r.id as usize]) };
-                if scn.flag_first {
-                    finish_builder!(TimeLimiterLayer::builder().cancel_running_future(cancel).timeout_fn(f))
-                } else {
-                    finish_builder!(TimeLimiterLayer::builder().timeout_fn(f).cancel_running_future(cancel))
+                let dd = Duration::from_millis(if scn.decoy == 1 { 3 } else { 300 });
+                match (scn.flag_first, scn.decoy > 0) {
+                    (true, false) => finish_builder!(TimeLimiterLayer::builder().cancel_running_future(cancel).timeout_fn(f)),
+                    (false, false) => finish_builder!(TimeLimiterLayer::builder().timeout_fn(f).cancel_running_future(cancel)),
+                    (true, true) => finish_builder!(TimeLimiterLayer::builder().cancel_running_future(cancel).timeout_duration(dd).timeout_fn(f)),
+                    (false, true) => finish_builder!(TimeLimiterLayer::builder().timeout_duration(dd).timeout_fn(f).cancel_running_future(cancel)),
                 }
             }
         }
@@ -283,6 +331,7 @@ pub fn run(s: &Scn, ctx: &mut RunCtx) -> RunOutput {
                     let good = match (&o.ok, &o.inner, o.err) {
                         (Some(r), _, None) => want_ok && r.req == i as u32 && Some(r.serial) == mine.first().map(|m| m.serial),
                         (None, Some(e), Some("Inner")) => matches!(c.beh.out, Outcome::Err(k) if k == e.kind) && e.req == i as u32,
+                        (None, None, Some("InnerElapsed")) => c.beh.out == Outcome::Err(INNER_ELAPSED_KIND),
                         _ => false,
                     };
                     if !good || !inner_possible {
